@@ -8,7 +8,7 @@ import exprgen as X
 
 def typed_notation_cases(ctx):
     rng = ctx.rng
-    nlang = 3 if ctx.tier == "quick" else 15
+    nlang = 6 if ctx.tier == "quick" else 20
     for li in range(nlang):
         spec = G.gen_lang(rng, max_base=5, max_ops=2, max_arity=2)
         ops = spec.build()
@@ -54,7 +54,39 @@ def one_tree(ctx, li, spec, ops, opdecls, lang, operators, tree, ninputs, report
                 ctx.fail(f"{text!r} parsed to {obs}; the programmatic construction {X.ctree_sexp(ctree)} gives {ref}",
                     {"check": "typed-notation"},
                     {"lang": spec.to_json(), "opdecls": [[n, s] for n, s in opdecls], "tree": tree, "text": text, "inputs": ninputs})
+    # `e : T` constrains e to a subtype of T without changing the tree: annotate the whole expression, un-bracketed and
+    # bracketed, with its own (concrete, function-free) type - nothing may change
+    if e is not None and ref.startswith("ok"):
+        try:
+            td = G.py_to_data(e.type, ops)
+            tytext = G.ty_text(td, spec) if not has_fun_or_unit(td) else None
+        except Exception:  # noqa (the type still has variables)
+            tytext = None
+        if e is not None:
+            plain = X.tree_text(tree)
+            # its own type (when it can be written), a declared supertype, and Top
+            tys = ([tytext] if tytext else []) + ["Top"]
+            if tytext and not td[1] and spec.ancestors(td[0]):
+                tys.append(spec.name(spec.ancestors(td[0])[0]))
+            texts = []
+            for ty in tys:
+                texts += [plain + " : " + ty, "(" + plain + ") : " + ty]
+            for text in texts:
+                obs, ex2, e2, _ = X.obs_typed(lang, text, ninputs, ops)
+                ctx.case(f"(texpr {ninputs} T {G.str_sexp(text)})", obs, {"lang": spec.to_json(), "text": text, "inputs": ninputs, "how": "annotated"},
+                    nontrivial=X.napps(tree) >= 1, key=("ann", li, text))
+                ctx.count("annotated_root")
+                if obs != ref:
+                    ok = False
+                    if report:
+                        ctx.fail(f"{text!r} (the expression annotated with its own type) parsed to {obs}; without the annotation {ref}",
+                            {"check": "annotation-changes-tree"},
+                            {"lang": spec.to_json(), "opdecls": [[n, s] for n, s in opdecls], "tree": tree, "text": text, "inputs": ninputs})
     return ok
+
+
+def has_fun_or_unit(t):
+    return t[0] in (G.FUN, G.UNIT) or any(has_fun_or_unit(a) for a in t[1])
 
 
 def tt_tree(t):
